@@ -692,7 +692,18 @@ func strBytes(v value) []value {
 		}
 		return b
 	case sstr:
-		return s.b
+		if !hasTokens(s.b) {
+			return s.b
+		}
+		out := make([]value, 0, len(s.b))
+		for _, e := range s.b {
+			if l, ok := e.(lazyStr); ok {
+				out = append(out, strBytes(l.force())...)
+			} else {
+				out = append(out, e)
+			}
+		}
+		return out
 	case lazyStr:
 		return strBytes(s.force())
 	}
@@ -704,15 +715,40 @@ func strLen(v value) int {
 	case string:
 		return len(s)
 	case sstr:
-		return len(s.b)
+		return len(strBytes(s))
 	case lazyStr:
 		return len(strBytes(s.force()))
 	}
 	panic(fmt.Sprintf("strLen: %T", v))
 }
 
+func hasTokens(b []value) bool {
+	for _, e := range b {
+		if _, ok := e.(lazyStr); ok {
+			return true
+		}
+	}
+	return false
+}
+
+// strElems returns the elements of a string value: bytes and, unforced, number tokens.
+func strElems(v value) []value {
+	switch s := v.(type) {
+	case sstr:
+		return s.b
+	case lazyStr:
+		return []value{s}
+	}
+	return strBytes(v)
+}
+
 // mkStr normalises a byte list: all-concrete lists become Go strings.
 func mkStr(b []value) value {
+	if len(b) == 1 {
+		if l, ok := b[0].(lazyStr); ok {
+			return l
+		}
+	}
 	conc := true
 	for _, c := range b {
 		if _, ok := c.(uint8); !ok {
@@ -752,6 +788,11 @@ func strEq(x, y value) value {
 			if r, ok := lazyEq(lx, ly); ok {
 				return r
 			}
+		}
+	}
+	if ea, eb := strElems(x), strElems(y); hasTokens(ea) || hasTokens(eb) {
+		if r, ok := tokenEq(ea, eb); ok {
+			return r
 		}
 	}
 	a, b := strBytes(x), strBytes(y)
@@ -804,7 +845,7 @@ func byteLt(a, b value) value {
 func symStrBinop(op token.Token, x, y value) value {
 	switch op {
 	case token.ADD:
-		return mkStr(append(append([]value{}, strBytes(x)...), strBytes(y)...))
+		return mkStr(append(append([]value{}, strElems(x)...), strElems(y)...))
 	case token.EQL:
 		return strEq(x, y)
 	case token.NEQ:
@@ -892,4 +933,84 @@ func decodeRune(b []byte) (rune, int) {
 		return r, n
 	}
 	return 0xFFFD, 1
+}
+
+
+func numAlphabet(c byte) bool { return (c >= '0' && c <= '9') || c == '-' }
+
+// tokenEq compares two element lists that contain number tokens (decimal texts of symbolic
+// integers).  Exact because such a text is canonical, consists of [-0-9] only, and - in every
+// use - is followed by a byte outside that alphabet or by the end of the string; anything the
+// walk cannot decide makes it give up (the caller then forces the tokens).
+func tokenEq(a, b []value) (value, bool) {
+	var res value = true
+	i, j := 0, 0
+	for i < len(a) && j < len(b) {
+		ta, aTok := a[i].(lazyStr)
+		tb, bTok := b[j].(lazyStr)
+		switch {
+		case aTok && bTok:
+			r, ok := lazyEq(ta, tb)
+			if !ok {
+				return nil, false
+			}
+			res = andV(res, r)
+			i, j = i+1, j+1
+		case aTok || bTok:
+			tok, other, k := ta, b, j
+			if bTok {
+				tok, other, k = tb, a, i
+			}
+			if tok.float || tok.base != 10 {
+				return nil, false
+			}
+			// maximal run of concrete number characters on the other side
+			e := k
+			for e < len(other) {
+				c, ok := other[e].(uint8)
+				if !ok {
+					if _, isTok := other[e].(lazyStr); isTok {
+						break
+					}
+					return nil, false // symbolic byte next to a number: undecidable here
+				}
+				if !numAlphabet(c) {
+					break
+				}
+				e++
+			}
+			run := make([]byte, 0, e-k)
+			for _, c := range other[k:e] {
+				run = append(run, c.(uint8))
+			}
+			if e < len(other) {
+				if _, isTok := other[e].(lazyStr); isTok {
+					return nil, false
+				}
+			}
+			v, err := strconv.ParseInt(string(run), 10, 64)
+			if err != nil || strconv.FormatInt(v, 10) != string(run) {
+				return false, true // not the canonical text of any integer
+			}
+			res = andV(res, symBool("(= "+tok.sym.E+" "+lit(symOfValue(tok.sym.K, v))+")"))
+			if bTok {
+				i, j = e, j+1
+			} else {
+				i, j = i+1, e
+			}
+		default:
+			res = andV(res, byteEq(a[i], b[j]))
+			i, j = i+1, j+1
+		}
+		if res == false {
+			return false, true
+		}
+	}
+	if i != len(a) || j != len(b) {
+		return false, true
+	}
+	if s, ok := res.(*Sym); ok {
+		return mk(types.Bool, s.E), true
+	}
+	return res, true
 }
